@@ -14,6 +14,7 @@ import XotModel.Lemmas.FmapRetHist
 import XotModel.Lemmas.FmapRefRun
 import XotModel.Model.ValueAccess
 import XotModel.Lemmas.FmapMix
+import XotModel.Lemmas.FframeGeneralMix
 import XotModel.Lemmas.ParseWitness
 import XotModel.Model.FspecSpec
 
@@ -1239,5 +1240,96 @@ example :
     touchesEntries f 1 (.api (.call (.cloneNode 1))) = false ∧ touchesEntries f 1 (.parse .document []) = false ∧
     abs .attributes (((PStore.init Env.fresh).run c11MixPre).step (.api (.call (.remove 2)))).forest 1 = [] ∧
     abs .attributes f 1 = [(3, .str ['1'])] := by decide +kernel
+
+end XotModel.Props
+
+
+/-! # ================================================================================================
+    # INTERLEAVED HISTORIES, SHARP SIDE CONDITION (branch wt-framegen)
+    # ================================================================================================
+
+  `C11_histories_interleaved` refuses another step as soon as one of its written node arguments lies in the same
+  parentless tree as a tracked element (`touchesEntries`).  `sharpTouches` (Model/FframeSpec.lean) asks, for the calls
+  of the domain of `C05_frame_general` (the nine structural calls, clone_node, map insert / remove made as plain API
+  calls, the value setters, node creation, set_text_consolidation) that answer `ok` on live arguments, only that neither the
+  tracked element nor one of its children is in `Forest.XCall.writtenParents`, inside the removed subtree or inside
+  the moved subtree; ANY extended call on live arguments that answers an error touches nothing (`C06_atomic_ext`: it
+  has changed nothing); for every other step it is `touchesEntries`.  So appending a text node to a SIBLING of a
+  tracked element, removing a cousin, or a call the crate refuses no longer blocks the prediction. -/
+
+namespace XotModel.Props
+open XotModel Fmap
+
+/-- ⟦C11_histories_interleaved_sharp⟧ **Map updates interleaved with every other call, sharp side condition.**
+    `C11_histories_interleaved` with `mixOkSharp` (`sharpTouches`) in the place of `mixOk` (`touchesEntries`). -/
+theorem C11_histories_interleaved_sharp (s : PStore) (hi : s.forest.Inv) (T : List Nat) (steps : List MixStep)
+    (hok : mixOkSharp T s steps) :
+    (∀ x ∈ T, ∀ k, abs k (mixRun s steps).forest x = specOps2 (famOf s.forest) (mapOpsOf steps) x k) ∧
+    (∀ x k, omWf (abs k (mixRun s steps).forest x)) ∧
+    (∀ x ∈ T, (mixRun s steps).forest.isElement x = s.forest.isElement x) ∧
+    (mixRun s steps).forest.Inv := by
+  obtain ⟨h1, h2, h3⟩ := mix_history_sharp T steps s (famOf s.forest) hi (fun _ _ _ => rfl) hok
+  exact ⟨h2, fun x k => unique_keys_of_inv _ h1 k x, h3, h1⟩
+
+/-- ⟦C11_reachable_histories_interleaved_sharp_full⟧ … on every store a history of parses and API calls reaches
+    from `Xot::new()`. -/
+theorem C11_reachable_histories_interleaved_sharp_full (env : Env) (pre : List PCall)
+    (hw : ∀ c ∈ pre, c.wellKinded) (T : List Nat) (steps : List MixStep)
+    (hok : mixOkSharp T ((PStore.init env).run pre) steps) :
+    let s := (PStore.init env).run pre
+    (∀ x ∈ T, ∀ k, abs k (mixRun s steps).forest x = specOps2 (famOf s.forest) (mapOpsOf steps) x k) ∧
+    (∀ x k, omWf (abs k (mixRun s steps).forest x)) ∧
+    (∀ x ∈ T, (mixRun s steps).forest.isElement x = s.forest.isElement x) ∧
+    (mixRun s steps).forest.Inv :=
+  C11_histories_interleaved_sharp _ (PStore.fph_run_inv pre (PStore.fph_init_inv env) hw) T steps hok
+
+/-- One step: what `sharpTouches = false` guarantees. -/
+theorem C11_step_sharp {s : PStore} (hi : s.forest.Inv) (c : PCall) (hw : c.wellKinded) (x : Nat)
+    (ht : sharpTouches s x c = false) :
+    (∀ k, abs k (s.step c).forest x = abs k s.forest x) ∧
+      (s.step c).forest.isElement x = s.forest.isElement x :=
+  sharp_step hi c hw x ht
+
+/-! ### Non-vacuity: `<r a="1"><c/><d/></r>` = document 0, `r` 1, `a` 2, `c` 3, `d` 4.  Tracked: `c`.  A new text node
+    (handle 6; 5 is the attribute node the first map step creates) is APPENDED TO THE SIBLING `d`, then `d` is removed: both calls write inside the tree of `c`, so the
+    coarse condition refuses the history; the sharp one accepts it, and the prediction from the two map steps alone
+    is what the model computes.  The second step, `append(c, document)`, is REFUSED by the crate (invalidOperation):
+    it names the tracked element itself and touches nothing. -/
+
+def c11SharpPre : List PCall := [.parse .document "<r a=\"1\"><c/><d/></r>".toList]
+def c11SharpSteps : List MixStep := [
+  .map (.setAttribute 3 5 ['v']),
+  .other (.api (.call (.append 3 0))),
+  .other (.api (.newNode (.text ['t']))),
+  .other (.api (.call (.append 4 6))),
+  .map (.setAttribute 3 3 ['w']),
+  .other (.api (.call (.remove 4)))]
+
+theorem c11SharpPre_wellKinded : ∀ c ∈ c11SharpPre, c.wellKinded := by decide
+theorem c11Sharp_ok : mixOkSharp [3] ((PStore.init Env.fresh).run c11SharpPre) c11SharpSteps := by decide +kernel
+
+example : ¬ mixOk [3] ((PStore.init Env.fresh).run c11SharpPre) c11SharpSteps := by decide +kernel
+example :
+    let s := (((PStore.init Env.fresh).run c11SharpPre).step (.api (.newNode (.text ['t']))))
+    touchesEntries s.forest 3 (.api (.call (.append 4 5))) = true ∧
+    sharpTouches s 3 (.api (.call (.append 4 5))) = false ∧
+    (Forest.XCall.call (.append 4 5)).writtenParents s.forest = [4, 5] ∧
+    s.forest.kidHandles 1 = [2, 3, 4] ∧
+    sharpTouches s 3 (.api (.call (.append 3 5))) = true ∧ sharpTouches s 3 (.api (.call (.remove 1))) = true ∧
+    ((PCall.api (.call (.append 3 0))).run s).2 = .api (.err .invalidOperation) ∧
+    touchesEntries s.forest 3 (.api (.call (.append 3 0))) = true ∧
+    sharpTouches s 3 (.api (.call (.append 3 0))) = false := by
+  decide +kernel
+example : abs .attributes (mixRun ((PStore.init Env.fresh).run c11SharpPre) c11SharpSteps).forest 3 =
+    specOps2 (famOf ((PStore.init Env.fresh).run c11SharpPre).forest) (mapOpsOf c11SharpSteps) 3 .attributes :=
+  (C11_reachable_histories_interleaved_sharp_full Env.fresh c11SharpPre c11SharpPre_wellKinded [3] c11SharpSteps
+    c11Sharp_ok).1 3 (by decide) .attributes
+example :
+    abs .attributes (mixRun ((PStore.init Env.fresh).run c11SharpPre) c11SharpSteps).forest 3 =
+      [(5, .str ['v']), (3, .str ['w'])] ∧
+    specOps2 (famOf ((PStore.init Env.fresh).run c11SharpPre).forest) (mapOpsOf c11SharpSteps) 3 .attributes =
+      [(5, .str ['v']), (3, .str ['w'])] ∧
+    (mixRun ((PStore.init Env.fresh).run c11SharpPre) c11SharpSteps).forest.kidHandles 1 = [2, 3] := by
+  decide +kernel
 
 end XotModel.Props
